@@ -320,12 +320,12 @@ struct RefsWorld : World {
 					{ streaminfo info; { Sut su; _mpt_stream_setfile(&info, fd, fd); info.set_flags(stream::Buffer); } { Sut su(failn); in = io::stream::input::create(&info); fired = g.fired; } }
 					lib[k] = in ? static_cast<metatype *>(in) : 0;
 					if (!in) acc_ch = -1; else st.hit("probe:input_from_streaminfo");
-					if (in && (op.c & 1024)) { bool c = try_copy_obj(*static_cast<io::stream *>(in)); st.hit(c ? "probe:cxx_io_stream_copied" : "probe:cxx_io_stream_not_copyable"); }
+					if (in && (op.c & 256)) { bool c = try_copy_obj(*static_cast<io::stream *>(in)); st.hit(c ? "probe:cxx_io_stream_copied" : "probe:cxx_io_stream_not_copyable"); }
 					if (in && !chan_open(acc_ch)) fail("destroyed-early", "a stream input created from a streaminfo has no open descriptor left once the streaminfo is gone (1 holder)");
 				}
 				else if (k == 8) { io::stream::input *in; { Sut su(failn); in = io::stream::input::create(0); fired = g.fired; } lib[k] = in ? static_cast<metatype *>(in) : 0; acc_ch = -1;
 					// (where an io::stream can be copied at all, the copy and its going away leave the original with its stream)
-					if (in && (op.c & 1024)) { bool c = try_copy_obj(*static_cast<io::stream *>(in)); st.hit(c ? "probe:cxx_io_stream_copied" : "probe:cxx_io_stream_not_copyable"); } }
+					if (in && (op.c & 256)) { bool c = try_copy_obj(*static_cast<io::stream *>(in)); st.hit(c ? "probe:cxx_io_stream_copied" : "probe:cxx_io_stream_not_copyable"); } }
 				else if (k == 9) { mpt::path pp; pp.sep = '.'; pp.assign = 0; { Sut su; mpt_path_set(&pp, "refs.view", -1); } { Sut su(failn); lib[k] = mpt_config_global(&pp); fired = g.fired; } }
 				else {
 					int ch = simio::new_chan(64); lib_fd = simio::new_fd(ch, ch, O_RDWR | O_NONBLOCK);
